@@ -67,11 +67,16 @@ def _check_batch(ctx, pairs, ref, hyp, eos, include_eos, cost, tier, tag, module
             try:
                 r0, h0 = r_in.clone(), h_in.clone()
                 if api == "functional":
-                    out = F.error_rate(r_in, h_in, warn=False, **kw).tolist()
+                    out_t = F.error_rate(r_in, h_in, warn=False, **kw)
                 else:
                     mod = M.ErrorRate(warn=False, **kw)
                     mod(h_in.flip(0), r_in.flip(0))  # one module object, an unrelated call first
-                    out = mod(r_in, h_in).tolist()
+                    out_t = mod(r_in, h_in)
+                kept = out_t.clone()
+                F.error_rate(h_in.flip(0), r_in.flip(0), warn=False, **kw)  # a later, unrelated call
+                if not torch.equal(kept, out_t) and not (kept != kept).any():
+                    raise AssertionError("result of an earlier call changed after a later call (aliased buffer)")
+                out = out_t.tolist()
                 if not (torch.equal(r0, r_in) and torch.equal(h0, h_in)):
                     raise AssertionError("argument modified in place")
                 err = None
